@@ -14,11 +14,12 @@ import (
 
 // ---- C12: namespace names are translated wherever they occur (engine "translate") ------------
 
-var c12Mapping = map[string]string{"local-ns": "remote-ns", "other-local": "other-remote", "a": "b", "b": "c"}
+// includes a chain a->b->c and an identity entry (a namespace that keeps its name on both sides)
+var c12Mapping = map[string]string{"local-ns": "remote-ns", "other-local": "other-remote", "a": "b", "b": "c", "shared": "shared"}
 
 func c12Names() []string {
 	// mapped names, look-alikes (prefix / suffix / substring / case), unmapped, empty, chain a->b->c
-	return []string{"local-ns", "local-ns", "other-local", "a", "b", "local-ns2", "xlocal-ns", "local", "LOCAL-NS", "unmapped", "", "remote-ns", "c"}
+	return []string{"local-ns", "local-ns", "other-local", "a", "b", "shared", "shared", "local-ns2", "xlocal-ns", "local", "LOCAL-NS", "unmapped", "", "remote-ns", "c"}
 }
 
 // translateAndCompare runs the real translator on m and compares with the independent reference.
@@ -106,9 +107,43 @@ func TestC12(t *testing.T) {
 			}
 		}
 	}
-	e.Stats["extra"] = map[string]any{"roots": len(roots), "types": len(g.Types), "oracle_paths_total": nPaths, "max_occurrences_per_type": maxOcc}
+	// two namespace fields in one message: a name with an identity mapping (or an unmapped one) on one path must not
+	// influence the translation of the name on the other path, whatever the visiting order
+	nCombo := 0
+	for _, r := range roots {
+		paths := enumPaths(g, r, nsLeaf, 1, 2000)
+		if len(paths) < 2 {
+			continue
+		}
+		tries := 3
+		if e.Thorough() {
+			tries = 30
+		}
+		for k := 0; k < tries; k++ {
+			p, q := paths[e.Rng.IntN(len(paths))], paths[e.Rng.IntN(len(paths))]
+			if p.opString() == q.opString() || hasBlobStep(p) || hasBlobStep(q) {
+				continue
+			}
+			first := []string{"shared", "unmapped", "remote-ns"}[e.Rng.IntN(3)]
+			m1, err1 := buildAlong(g, p, func(f reflect.Value) { f.SetString(first) })
+			m2, err2 := buildAlong(g, q, func(f reflect.Value) { f.SetString("local-ns") })
+			if err1 != nil || err2 != nil {
+				continue
+			}
+			proto.Merge(m1, m2)
+			cmp, err := translateAndCompare(tr, m1, true, ro)
+			e.Emit(fmt.Sprintf("# combo %s + %s", p.opString(), q.opString()), "#")
+			e.Evals++
+			nCombo++
+			if err != nil || cmp != "equal" {
+				e.Violation(map[string]any{"what": fmt.Sprintf("message with %q at %s and a mapped name at %s (root %s): translation differs from the reference (%s %v)", first, describePath(g, p), describePath(g, q), g.Types[r].Go, cmp, err),
+					"ops": []string{fmt.Sprintf("# combo %s + %s first=%s", p.opString(), q.opString(), first)}})
+			}
+		}
+	}
+	e.Stats["extra"] = map[string]any{"roots": len(roots), "types": len(g.Types), "oracle_paths_total": nPaths, "max_occurrences_per_type": maxOcc, "two_field_combinations": nCombo}
 	// random fully-populated messages of every root type, compared with the independent reference translation
-	perRootRand := 2
+	perRootRand := 6
 	if e.Thorough() {
 		perRootRand = 40
 	}
